@@ -152,6 +152,14 @@ def gen_mutants(files):
                         muts.append({"file": rel, "line": i + 1, "op": name, "old": l.strip(), "new": new.strip(), "text": new})
             if DELETE_STMT.match(l):
                 muts.append({"file": rel, "line": i + 1, "op": "delete-stmt", "old": l.strip(), "new": "", "text": ""})
+            # third generation: swap two adjacent one-line statements of equal indentation
+            if i + 1 in idxs and l.rstrip().endswith(";") and lines[i + 1].rstrip().endswith(";"):
+                ind = len(l) - len(l.lstrip())
+                l2 = lines[i + 1]
+                if ind == len(l2) - len(l2.lstrip()) and l.strip() != l2.strip() and l.count("(") == l.count(")") and l2.count("(") == l2.count(")") \
+                        and not l.lstrip().startswith(("use ", "pub use", ")", "}", ".")) and not l2.lstrip().startswith((")", "}", ".")):
+                    muts.append({"file": rel, "line": i + 1, "op": "swap-stmts", "old": l.strip() + " / " + l2.strip(), "new": l2.strip() + " / " + l.strip(),
+                                 "text": l2, "text2": l})
     # stable ids
     for m in muts:
         m["id"] = hashlib.sha1(("%s:%d:%s:%s" % (m["file"], m["line"], m["op"], m["new"])).encode()).hexdigest()[:10]
@@ -202,10 +210,13 @@ class Worker(threading.Thread):
             t0 = time.time()
             res = dict(m)
             res.pop("text", None)
+            res.pop("text2", None)
             path = os.path.join(self.repo, "src", m["file"])
             sh("git checkout -- .", cwd=self.repo)
             lines = open(path, encoding="utf-8").read().split("\n")
             lines[m["line"] - 1] = m["text"]
+            if "text2" in m:
+                lines[m["line"]] = m["text2"]
             open(path, "w", encoding="utf-8").write("\n".join(lines))
             rc, o = sh("cargo build --offline --features uuid 2>&1 | tail -5", cwd=self.repo, env=env)
             if "error" in o and "Finished" not in o:
